@@ -19,11 +19,18 @@ type Field struct {
 // Shape is a root struct.
 type Shape struct {
 	Fields []*Field
+	// Share declares one Go struct type for all groups with the same
+	// children (the same type used by several fields) instead of one type
+	// per group.  Signature prefix "~".
+	Share bool
 }
 
 // Sig renders the signature: leaves r/o/p, groups R(...)/O(...)/P(...).
 func (s *Shape) Sig() string {
 	var sb strings.Builder
+	if s.Share {
+		sb.WriteByte('~')
+	}
 	for _, f := range s.Fields {
 		f.sig(&sb)
 	}
@@ -48,6 +55,13 @@ func (f *Field) sig(sb *strings.Builder) {
 
 // ParseSig parses a signature back into a shape.
 func ParseSig(sig string) (*Shape, error) {
+	if strings.HasPrefix(sig, "~") {
+		s, err := ParseSig(sig[1:])
+		if err == nil {
+			s.Share = true
+		}
+		return s, err
+	}
 	pos := 0
 	var parseFields func(depth int) ([]*Field, error)
 	parseFields = func(depth int) ([]*Field, error) {
@@ -123,6 +137,7 @@ func (s *Shape) Leaves() int {
 func (s *Shape) Source(pkg string) string {
 	var decls []string
 	n := 0
+	shared := map[string]string{} // children signature -> type name (Share)
 	var rec func(name string, fs []*Field)
 	rec = func(name string, fs []*Field) {
 		var sb strings.Builder
@@ -141,8 +156,15 @@ func (s *Shape) Source(pkg string) string {
 				}
 				fmt.Fprintf(&sb, "\tF%d %s%s\n", i, prefix, t)
 			} else {
+				if s.Share {
+					if tn, ok := shared[childSig(f)]; ok {
+						fmt.Fprintf(&sb, "\tF%d %s%s\n", i, prefix, tn)
+						continue
+					}
+				}
 				n++
 				tn := fmt.Sprintf("T%d", n)
+				shared[childSig(f)] = tn
 				fmt.Fprintf(&sb, "\tF%d %s%s\n", i, prefix, tn)
 				later = append(later, pending{tn, f.Children})
 			}
@@ -155,6 +177,37 @@ func (s *Shape) Source(pkg string) string {
 	}
 	rec("T", s.Fields)
 	return "package " + pkg + "\n\n" + strings.Join(decls, "\n")
+}
+
+func childSig(f *Field) string {
+	var sb strings.Builder
+	for _, c := range f.Children {
+		c.sig(&sb)
+	}
+	return sb.String()
+}
+
+// Sharable reports whether two groups of the shape have the same children,
+// i.e. whether Share changes the declarations.
+func (s *Shape) Sharable() bool {
+	seen := map[string]bool{}
+	dup := false
+	var rec func(fs []*Field)
+	rec = func(fs []*Field) {
+		for _, f := range fs {
+			if f.Leaf {
+				continue
+			}
+			k := childSig(f)
+			if seen[k] {
+				dup = true
+			}
+			seen[k] = true
+			rec(f.Children)
+		}
+	}
+	rec(s.Fields)
+	return dup
 }
 
 // Enumerate lists every shape with nesting depth <= maxDepth (depth 0 = flat),
